@@ -229,7 +229,7 @@ def run(ctx, chk):
             except AnchorError:
                 chk.fail("J0", "%s:%s" % (ty, tr), "", "%s has no %s impl" % (ty, tr))
     # ---------------- J1 hand-written struct pairs
-    for ty, visitor_hint in (("PriceLevelSnapshot", "snapshot::PriceLevelSnapshot as "), ("PriceLevelStatistics", "statistics::PriceLevelStatistics as ")):
+    for ty, visitor_hint in (("PriceLevelSnapshot", "::PriceLevelSnapshot as "), ("PriceLevelStatistics", "::PriceLevelStatistics as ")):
         adt = db.adt(ty)
         sfields = [f["name"] for f in adt["variants"][0]["fields"]]
         sb = db.method(ty, "serialize", trait="Serialize")
